@@ -45,6 +45,9 @@
 #include "extensions/qconfig.h"
 
 #define _INCLUDE_DIRECTIVE  "@INCLUDE "
+#ifndef _INCLUDE_MAX
+#define _INCLUDE_MAX        (64)    /* max. number of spliced include files */
+#endif
 
 #ifndef _DOXYGEN_SKIP
 #define _VAR        '$'
@@ -134,10 +137,18 @@ qlisttbl_t *qconfig_parse_file(qlisttbl_t *tbl, const char *filepath,
 
     // process include directive
     char *strp = str;
+    int nincludes = 0;
 
     while ((strp = strstr(strp, _INCLUDE_DIRECTIVE)) != NULL) {
         if (strp == str || strp[-1] == '\n') {
             char buf[PATH_MAX];
+
+            // a file including itself (directly or not) would be spliced forever.
+            if (++nincludes > _INCLUDE_MAX) {
+                DEBUG("Too many %s directives.", _INCLUDE_DIRECTIVE);
+                free(str);
+                return NULL;
+            }
 
             // parse filename
             char *tmpp;
